@@ -28,6 +28,13 @@ is attributed to the earlier one:
   READING with `command_timeout > 0` and `connect + command_timeout < now`; the signal interrupts
   the target iff it is blocked in connect or in xpoll (a target that is not blocked loses it);
   then `sleep` again;
+* `W.destroyBegin` .. `W.destroyEnd` = the TEARDOWN, a phase of its own: a script also says how long the remote
+  command lives by itself (`life` seconds after the connect, `none` = for ever) and what a SIGTERM does to it
+  (`grace`: gone that many seconds later, `none` = ignored).  The worker forwards SIGTERM when it gives up on the
+  target at the command timeout (both places).  `W.destroyEnd` (`rcmd_destroy` returns, the command is reaped)
+  is possible only when the command is gone (`death ≤ now`); a wait interrupted by a signal would return
+  un-reaped (EINTR; dead branch on this code, see `Props/C07.lean teardown_uninterrupted`).  The fanout slot is
+  released by the operations after `W.destroyEnd`, as in the Fan LTS;
 * `tick`: the clock advances by one second.  MAXIMAL PROGRESS: a tick is possible only when no
   thread can perform an operation (computation is instantaneous at the granularity of the 1 s
   clock).  Spurious wake-ups of the dispatcher do not count (they may or may not happen).
